@@ -2304,8 +2304,8 @@ def r156(pe, rep):
     fline = u.fn('declaration').line
     E = pe.E
     n = 0
-    for tls in (0, 1):
-        for has_init in (0, 1):
+    for tls, has_init, aligned in [(t_, h_, a_) for t_ in (0, 1) for h_ in (0, 1) for a_ in (0, 1)]:
+        if True:
             def h_equal(it, ctx, nd, args, has_init=has_init):
                 if args[1] == ';':
                     return 0 if ctx.c15_k == 0 else 1
@@ -2335,12 +2335,12 @@ def r156(pe, rep):
                            cut={'equal': h_equal, 'declarator': h_decl, 'get_ident': h_ident, 'push_scope': h_push, 'gvar_initializer': h_init},
                            globals_={'globals': lambda ctx: ctx.c15_g0, 'locals': lambda ctx: ctx.c15_l0})
 
-            def mk(ctx, tls=tls):
+            def mk(ctx, tls=tls, aligned=aligned):
                 ctx.c15_k = 0
                 ctx.c15_g0 = Obj('Obj', lazy=True, label='earlier-globals')
                 ctx.c15_l0 = Obj('Obj', lazy=True, label='earlier-locals')
                 a = Obj('VarAttr', lazy=True, label='attr')
-                a.fields.update(dict(is_static=1, is_extern=0, is_tls=tls, is_inline=0, is_typedef=0, align=0))
+                a.fields.update(dict(is_static=1, is_extern=0, is_tls=tls, is_inline=0, is_typedef=0, align=64 if aligned else 0))
                 return [Sym('rest', 'Token **'), Obj('Token', lazy=True, label='tok'), Obj('Type', lazy=True, label='basety'), a]
             res = _explore(it, 'declaration', mk)
             rets = [(c, o) for c, o in res if o[0] == 'ret']
@@ -2350,7 +2350,7 @@ def r156(pe, rep):
             for ctx, out in rets:
                 n += 1
                 g = _final(it, ctx.globals.get('globals', ctx.c15_g0))
-                facts = {'declaration': 'static %sint x%s;' % ('_Thread_local ' if tls else '', ' = init' if has_init else ''), 'path': ctx.trail[-4:]}
+                facts = {'declaration': 'static %s%sint x%s;' % ('_Alignas(64) ' if aligned else '', '_Thread_local ' if tls else '', ' = init' if has_init else ''), 'path': ctx.trail[-4:]}
                 isobj = isinstance(g, Obj) and g is not ctx.c15_g0 and not g.lazy
                 ag.note('static-local/is-anonymous-global', isobj and _final(it, ctx.globals.get('locals', ctx.c15_l0)) is ctx.c15_l0,
                         'a block-scope static object is not created as a new object on `globals` (or it is put on `locals`): it would live in the stack frame and lose its value between calls', fline, facts)
@@ -2367,6 +2367,11 @@ def r156(pe, rep):
                 ag.note('static-local/thread-local-flag/%s' % ('thread-local' if tls else 'ordinary'), F('is_tls') == tls,
                         ('`static _Thread_local` at block scope creates an ordinary static object (is_tls stays %r): it is placed in .data/.bss and shared by all threads instead of being per-thread' % F('is_tls')) if tls else
                         'an ordinary block-scope static object is flagged thread-local', fline, facts)
+                al = F('align')
+                ag.note('static-local/align/%s' % ('_Alignas' if aligned else 'type'), (al == 64) if aligned else (al == 4),
+                        ('a block-scope static object declared `_Alignas(64)` gets alignment %r (the alignment of its type is 4): the requested alignment does not reach the object emit_data '
+                         'places (.align), as it does for the same declaration at file scope' % (al,)) if aligned else
+                        'a block-scope static object without alignment specifier gets alignment %r, its type has 4' % (al,), fline, facts)
                 _judge_built_state(pe.cg, ag, 'static-local', 'a block-scope static object', F, tls, has_init, fline, facts)
                 inits = [e for e in ctx.events if e[0] == 'init']
                 ag.note('static-local/initializer', (len(inits) == 1 and inits[0][1] is g) if has_init else not inits,
@@ -3313,6 +3318,384 @@ def r1512(pe, rep):
             rep.undecided('R15.12', '%s:%s:ND_VAR/label' % (PU, fn), 'no path of %s hands out the name of a variable as relocation label: the address-constant arm is not recognised' % fn)
 
 
+# =============================================================================================
+# R15.13 the alignment specifier reaches the object at every declaring site (block-scope automatic objects; file scope: R15.5, block-scope static: R15.6)
+# =============================================================================================
+def r1513(pe, rep):
+    rep.rule('R15.13', 'every site that creates an Obj from a declaration (type, VarAttr) transfers the alignment specifier: a block-scope automatic object declared _Alignas(N) '
+             'is created on `locals` with alignment N, without specifier with the alignment of its type (file scope: R15.5 align/*, block-scope static: R15.6 static-local/align/*)', floor=2)
+    u = pe.u
+    _need(u, PU, 'declaration', 'new_lvar')
+    ag = Agg(rep, 'R15.13', PU, 'declaration')
+    fline = u.fn('declaration').line
+    E = pe.E
+    n = 0
+    for has_init, aligned in ((0, 0), (0, 1), (1, 0), (1, 1)):
+        def h_equal(it, ctx, nd, args, has_init=has_init):
+            if args[1] == ';':
+                return 0 if ctx.c15_k == 0 else 1
+            if args[1] == '=':
+                return has_init
+            return _fresh_bool(ctx, 'equal')
+
+        def h_decl(it, ctx, nd, args):
+            ctx.c15_k += 1
+            ty = Obj('Type', lazy=True, label='ty')
+            ty.fields.update(dict(kind=E['TY_INT'], size=4, align=4, name=Obj('Token', lazy=True, label='ty.name')))
+            ctx.c15_ty = ty
+            return ty
+
+        def h_ident(it, ctx, nd, args):
+            return Sym('declared-name', 'char *')
+
+        def h_push(it, ctx, nd, args):
+            sc = Obj('VarScope', lazy=False, label='scope-entry')
+            ctx.emit('push_scope', args[0], sc, nd.line)
+            return sc
+
+        def h_node(it, ctx, nd, args):
+            return Obj('Node', lazy=True, label=ctx.fresh('node'))
+        it = pe.interp(('declaration', 'new_lvar', 'new_var'), opaque=('new_alloca', 'new_vla_ptr', 'new_anon_gvar', 'new_gvar', 'gvar_initializer'),
+                       cut={'equal': h_equal, 'declarator': h_decl, 'get_ident': h_ident, 'push_scope': h_push, 'lvar_initializer': h_node, 'compute_vla_size': h_node,
+                            'new_unary': h_node, 'new_binary': h_node, 'new_node': h_node, 'new_var_node': h_node},
+                       globals_={'globals': lambda ctx: ctx.c15_g0, 'locals': lambda ctx: ctx.c15_l0})
+
+        def mk(ctx, aligned=aligned):
+            ctx.c15_k = 0
+            ctx.c15_g0 = Obj('Obj', lazy=True, label='earlier-globals')
+            ctx.c15_l0 = Obj('Obj', lazy=True, label='earlier-locals')
+            a = Obj('VarAttr', lazy=True, label='attr')
+            a.fields.update(dict(is_static=0, is_extern=0, is_tls=0, is_inline=0, is_typedef=0, align=64 if aligned else 0))
+            return [Sym('rest', 'Token **'), Obj('Token', lazy=True, label='tok'), Obj('Type', lazy=True, label='basety'), a]
+        res = _explore(it, 'declaration', mk)
+        rets = [(c, o) for c, o in res if o[0] == 'ret']
+        cls = 'automatic/%s' % ('_Alignas' if aligned else 'type')
+        if not rets:
+            ag.undecided(cls + '/evaluation', 'declaration() has no returning path for a block-scope automatic object', fline)
+            continue
+        for ctx, out in rets:
+            v = _final(it, ctx.globals.get('locals', ctx.c15_l0))
+            facts = {'declaration': '%sint x%s;' % ('_Alignas(64) ' if aligned else '', ' = init' if has_init else ''), 'path': ctx.trail[-4:]}
+            if not isinstance(v, Obj) or v is ctx.c15_l0 or v.lazy:
+                ag.undecided(cls + '/evaluation', 'declaration() does not put a new object on `locals` for `%s`' % facts['declaration'], fline)
+                continue
+            n += 1
+            al = _final(it, v.fields.get('align', 0))
+            facts['object'] = {k: repr(_final(it, v.fields.get(k, 0))) for k in ('name', 'is_local', 'align')}
+            ag.note('align/' + cls, (al == 64) if aligned else (al == 4),
+                    ('a block-scope automatic object declared `_Alignas(64)` gets alignment %r (its type has 4): the frame layout places it by Obj.align, the specifier is lost '
+                     '(the file-scope and block-scope-static sites transfer VarAttr.align)' % (al,)) if aligned else
+                    'a block-scope automatic object without alignment specifier gets alignment %r, its type has 4' % (al,), fline, facts)
+    if n == 0:
+        raise AnalysisBroken('declaration(): automatic-object arm not reached')
+    ag.flush(fline)
+
+
+# =============================================================================================
+# R15.14 declaration dispatch: which parser handles a declaration, at file scope and at block scope
+# =============================================================================================
+_DISPATCH_HANDLERS = ('parse_typedef', 'function', 'global_variable', 'declaration')
+_DISPATCH_ATTRS = (('plain', {}), ('static', {'is_static': 1}), ('extern', {'is_extern': 1}), ('inline', {'is_inline': 1}), ('static-inline', {'is_static': 1, 'is_inline': 1}),
+                   ('extern-inline', {'is_extern': 1, 'is_inline': 1}), ('thread-local', {'is_tls': 1}), ('static-thread-local', {'is_static': 1, 'is_tls': 1}),
+                   ('extern-thread-local', {'is_extern': 1, 'is_tls': 1}), ('typedef', {'is_typedef': 1}))
+
+
+def _dispatch_want(site, attr, fn):
+    if attr.get('is_typedef'):
+        return 'parse_typedef'
+    if fn:
+        return 'function'
+    if site == 'parse':
+        return 'global_variable'
+    return 'global_variable' if attr.get('is_extern') else 'declaration'
+
+
+def r1514(pe, rep):
+    rep.rule('R15.14', 'declaration dispatch: at every site that parses declaration specifiers and hands the declarators on (file scope: parse(); block scope: compound_stmt()) a declarator '
+             'of function type goes to function() whatever the storage class (so that the Obj is a function: linkage of the first declaration, liveness references), a typedef to parse_typedef(), '
+             'an object with `extern` at block scope / any object at file scope to global_variable(), other block-scope objects to declaration(); the handler gets the base type and the '
+             'attributes declspec() produced; no other function dispatches to function() / global_variable(); the look-ahead is_function() both sites use is true exactly for a declarator of function type', floor=38)
+    u = pe.u
+    _need(u, PU, 'parse', 'compound_stmt', 'function', 'global_variable', 'declaration', 'declspec', 'is_function')
+    sites = {'parse': 'file scope', 'compound_stmt': 'block scope'}
+    others = sorted((pe.callers.get('function', set()) | pe.callers.get('global_variable', set())) - set(sites) - {'function', 'global_variable'})
+    for o in others:
+        rep.undecided('R15.14', '%s:%s:dispatch/unknown-site' % (PU, o), '%s() calls function() / global_variable(): a declaration dispatch site the rule has no model of' % o,
+                      where='%s:%d' % (PU, u.fn(o).line))
+    for site, scope_doc in sites.items():
+        ag = Agg(rep, 'R15.14', PU, site)
+        fline = u.fn(site).line
+        n = 0
+        for aname, attr in _DISPATCH_ATTRS:
+            for fn in (0, 1):
+                if fn and attr.get('is_tls'):
+                    continue
+
+                def h_declspec(it, ctx, nd, args, attr=attr):
+                    a = _final(it, args[2]) if len(args) > 2 else None
+                    ty = Obj('Type', lazy=True, label=ctx.fresh('basety'))
+                    if isinstance(a, Obj):
+                        for k in ('is_typedef', 'is_static', 'is_extern', 'is_inline', 'is_tls'):
+                            a.fields[k] = attr.get(k, 0)
+                        a.fields['align'] = 0
+                    ctx.emit('c15-declspec', a, ty, nd.line)
+                    return ty
+
+                def h_isfn(it, ctx, nd, args, fn=fn):
+                    return fn
+
+                def mk_handler(name):
+                    def h(it, ctx, nd, args):
+                        ctx.emit('c15-dispatch', name, [_final(it, x) for x in args], nd.line)
+                        ctx.c15_done = True
+                        if name == 'declaration':
+                            return Obj('Node', lazy=True, label=ctx.fresh('node'))
+                        return Obj('Token', lazy=True, label=ctx.fresh('tok'))
+                    return h
+
+                def h_equal(it, ctx, nd, args):
+                    if args[1] == '}':
+                        return 1 if ctx.c15_done else 0
+                    return 0
+
+                def h_stmt(it, ctx, nd, args):
+                    ctx.emit('c15-stmt', nd.line)
+                    ctx.c15_done = True
+                    return Obj('Node', lazy=True, label=ctx.fresh('node'))
+
+                def h_none(it, ctx, nd, args):
+                    return None
+                cut = {h_: mk_handler(h_) for h_ in _DISPATCH_HANDLERS}
+                cut.update({'declspec': h_declspec, 'is_function': h_isfn, 'is_typename': lambda it_, ctx, nd, args: 1, 'equal': h_equal, 'stmt': h_stmt,
+                            'mark_live': h_none, 'scan_globals': h_none})
+                it = pe.interp((site,), opaque=('declare_builtin_functions', 'enter_scope', 'leave_scope', 'add_type', 'new_node'), cut=cut, loop_limit=1)
+
+                def mk(ctx):
+                    ctx.c15_done = False
+                    if site == 'parse':
+                        return [Obj('Token', lazy=True, label='tok')]
+                    return [Sym('rest', 'Token **'), Obj('Token', lazy=True, label='tok')]
+                res = _explore(it, site, mk)
+                want = _dispatch_want(site, attr, fn)
+                what = 'function' if fn else 'object'
+                key = 'dispatch/%s/%s' % (aname, what)
+                doc = '`%s` declaration of %s at %s' % (aname.replace('-', ' '), 'a function' if fn else 'an object', scope_doc)
+                seen = 0
+                for ctx, out in res:
+                    if out[0] != 'ret':
+                        continue
+                    evs = [e for e in ctx.events if e[0] in ('c15-declspec', 'c15-dispatch', 'c15-stmt')]
+                    i = 0
+                    while i < len(evs):
+                        if evs[i][0] != 'c15-declspec':
+                            i += 1
+                            continue
+                        j = i + 1
+                        while j < len(evs) and evs[j][0] != 'c15-declspec':
+                            j += 1
+                        ds = evs[i]
+                        got = [e for e in evs[i + 1:j] if e[0] == 'c15-dispatch']
+                        seen += 1
+                        n += 1
+                        facts = {'declaration': doc, 'handlers called': [e[1] for e in got], 'path': ctx.trail[-6:]}
+                        names = [e[1] for e in got]
+                        why = ''
+                        if fn and want == 'function' and names != ['function']:
+                            why = ('a declarator of function type is handed to %s instead of function(): the Obj created is not a function (is_function unset) -- references to it are not '
+                                   'recorded for liveness, so a static inline function used only through this declaration is never emitted, and the linkage rules of function() are bypassed; '
+                                   'the other dispatch site sends it to function()' % ('/'.join(x + '()' for x in names) or 'no handler'))
+                        ag.note(key, names == [want], why or '%s is handled by %s, expected %s()' % (doc, '/'.join(x + '()' for x in names) or 'no handler', want), fline, facts)
+                        if names == [want]:
+                            a_ = got[0][2]
+                            ag.note('arguments/' + want, any(x is ds[2] for x in a_) and (want == 'parse_typedef' or any(x is ds[1] for x in a_)),
+                                    '%s() does not receive the base type and the attributes declspec() produced for this declaration' % want, fline, facts)
+                        i = j
+                if not seen:
+                    ag.undecided(key + '/evaluation', 'no returning path of %s() parses declaration specifiers for a %s' % (site, doc), fline)
+        if n == 0:
+            raise AnalysisBroken('%s(): no declaration dispatched' % site)
+        ag.flush(fline)
+    # ---- the look-ahead both sites dispatch on: true exactly for a declarator of function type
+    ag = Agg(rep, 'R15.14', PU, 'is_function')
+    fline = u.fn('is_function').line
+    kinds = [k for k in u.enum_types.get('TypeKind', []) if k in pe.E]
+    if 'TY_FUNC' not in kinds:
+        raise AnalysisBroken('TypeKind / TY_FUNC vanished')
+    for kname in kinds:
+        def h_decl(it, ctx, nd, args, kname=kname):
+            ty = Obj('Type', lazy=True, label='declared-type')
+            ty.fields['kind'] = pe.E[kname]
+            ctx.c15_decl = True
+            return ty
+        it = pe.interp(('is_function',), cut={'declarator': h_decl, 'equal': lambda it_, ctx, nd, args: 0, 'consume': lambda it_, ctx, nd, args: 0})
+
+        def mk(ctx):
+            ctx.c15_decl = False
+            return [Obj('Token', lazy=True, label='tok')]
+        res = _explore(it, 'is_function', mk)
+        vals = [_final(it, o[1]) for c, o in res if o[0] == 'ret']
+        key = 'look-ahead/%s' % ('function-type' if kname == 'TY_FUNC' else 'other-type')
+        if len(vals) != len(res) or not vals or not all(isinstance(x, int) for x in vals):
+            ag.undecided(key, 'is_function() could not be evaluated for a declarator of kind %s (%r)' % (kname, vals), fline)
+            continue
+        want = int(kname == 'TY_FUNC')
+        ag.note(key, all(int(bool(x)) == want for x in vals),
+                'is_function() answers %r for a declarator whose type has kind %s: %s' % (vals, kname, 'function declarations are parsed as objects (no function Obj, no liveness references)'
+                                                                                         if want else 'object declarations are handed to function()'), fline, {'kind': kname})
+    ag.flush(fline)
+
+
+# =============================================================================================
+# R15.15 an object whose type is completed after its declaration is emitted with the alignment of the completed type
+# =============================================================================================
+def _emitted_alignments(cg, flags, align, tyfields):
+    """run emit_data on one object with concrete flags / alignment / type under -fcommon and -fno-common: {fcommon: alignment operand | None}"""
+    it = cg.interp()
+    it.global_init['opt_fcommon'] = lambda ctx: ctx.c15_fcommon
+    NAME1, NAME2 = ('sym', 'var.name'), ('sym', 'next.name')
+    got = {}
+    for fcommon in (1, 0):
+        def mk(ctx, fcommon=fcommon):
+            inner = _data_mk(cg, flags, fcommon, 0, 'struct')
+            r = inner(ctx)
+            v = ctx.c15_var
+            v.fields['align'] = align
+            v.fields['ty'].fields.update(tyfields)
+            return r
+        res = _explore(it, 'emit_data', mk)
+        rets = [(c, o) for c, o in res if o[0] == 'ret']
+        if len(rets) != 1 or len(res) != 1:
+            got[fcommon] = (None, 'emit_data has %d returning of %d paths on the concrete object' % (len(rets), len(res)))
+            continue
+        ctx = rets[0][0]
+        mine = []
+        for l in lines_of(it, ctx):
+            if l.mentions(NAME2):
+                break
+            if l.kind != 'blank':
+                mine.append(l)
+        vals = []
+        for l in mine:
+            if l.kind == 'dir' and l.head == '.comm' and len(l.ops) == 3 and op_is(l.ops[0], A, NAME1):
+                vals.append(op_val(l.ops[2]))
+            elif l.kind == 'dir' and l.head in ('.align', '.balign') and l.ops:
+                vals.append(op_val(l.ops[0]))
+            elif l.kind == 'dir' and l.head == '.p2align':
+                vals.append(None)
+        if len(vals) != 1 or not isinstance(vals[0], int):
+            got[fcommon] = (None, 'no single concrete alignment operand in: %s' % '; '.join(l.text.strip() for l in mine[:6]))
+        else:
+            got[fcommon] = (vals[0], '; '.join(l.text.strip() for l in mine[:6]))
+    return got
+
+
+def r1515(pe, rep):
+    rep.rule('R15.15', 'a file-scope object declared with a structure type that is still incomplete (`struct S; struct S s;`, C11 6.9.2p2: a tentative definition) and completed later in the '
+             'translation unit (`struct S { long a, b; };` -- the Type is completed in place) is emitted with the alignment of the completed type, or the _Alignas value: '
+             'parse() (declaration loop, scan_globals) and emit_data are evaluated in sequence on that translation unit; the alignment cached in the Obj at its creation is that of the incomplete type', floor=4)
+    u = pe.u
+    cg = pe.cg
+    _need(u, PU, 'parse', 'global_variable', 'new_gvar', 'scan_globals', 'declspec')
+    _need(cg.cu, CGU, 'emit_data')
+    E = pe.E
+    for k in ('TY_STRUCT', 'TK_EOF', 'TK_IDENT'):
+        if k not in E:
+            raise AnalysisBroken('enumerator %s vanished' % k)
+    fline = u.fn('parse').line
+    ag = Agg(rep, 'R15.15', PU, 'parse')
+    SIZE, ALIGN = 16, 8
+    n = 0
+    for storage in ('plain', 'static'):
+        for aligned in (0, 1):
+            def h_declspec(it, ctx, nd, args, storage=storage, aligned=aligned):
+                ctx.c15_k += 1
+                a = _final(it, args[2]) if len(args) > 2 else None
+                if isinstance(a, Obj):
+                    for f in ('is_typedef', 'is_extern', 'is_inline', 'is_tls', 'is_static', 'align'):
+                        a.fields[f] = 0
+                if ctx.c15_k == 1:
+                    ty = Obj('Type', lazy=True, label='struct S')
+                    ty.fields.update(dict(kind=E['TY_STRUCT'], size=-1, align=1, members=0, base=0, is_atomic=0, origin=0, array_len=0, is_flexible=0, is_packed=0,
+                                          name=Obj('Token', lazy=True, label='ty.name')))
+                    ctx.c15_ty = ty
+                    if isinstance(a, Obj):
+                        a.fields['is_static'] = int(storage == 'static')
+                        a.fields['align'] = 64 if aligned else 0
+                    return ty
+                # `struct S { long a; long b; };`: struct_union_decl overwrites the Type registered for the tag
+                ctx.c15_ty.fields.update(dict(size=SIZE, align=ALIGN, members=Obj('Member', lazy=True, label='members')))
+                ctx.c15_tok.fields['kind'] = E['TK_EOF']
+                return ctx.c15_ty
+
+            def h_consume(it, ctx, nd, args):
+                if args[2] == ';':
+                    if ctx.c15_k >= 2:
+                        return 1
+                    ctx.c15_c += 1
+                    return 0 if ctx.c15_c == 1 else 1
+                return 0
+
+            def h_equal(it, ctx, nd, args):
+                if args[1] == ';':
+                    return 1 if (ctx.c15_k >= 2 or ctx.c15_c >= 1) else 0
+                return 0
+
+            def h_push(it, ctx, nd, args):
+                return Obj('VarScope', lazy=False, label='scope-entry')
+
+            def h_none(it, ctx, nd, args):
+                return None
+            it = pe.interp(('parse', 'global_variable', 'new_gvar', 'new_var', 'scan_globals'), opaque=('declare_builtin_functions',),
+                           cut={'declspec': h_declspec, 'is_function': lambda it_, ctx, nd, args: 0, 'declarator': lambda it_, ctx, nd, args: ctx.c15_ty,
+                                'get_ident': lambda it_, ctx, nd, args: 's', 'consume': h_consume, 'equal': h_equal, 'push_scope': h_push, 'mark_live': h_none,
+                                'is_variably_modified': lambda it_, ctx, nd, args: 0, 'parse_typedef': h_none, 'function': h_none}, loop_limit=3)
+
+            def mk(ctx):
+                ctx.c15_k = 0
+                ctx.c15_c = 0
+                ctx.c15_ty = None
+                t = Obj('Token', lazy=True, label='tok')
+                t.fields['kind'] = E['TK_IDENT']
+                ctx.c15_tok = t
+                return [t]
+            decl = '%s%sstruct S s;' % ('static ' if storage == 'static' else '', '_Alignas(64) ' if aligned else '')
+            key = 'late-completion/%s/%s' % (storage, '_Alignas' if aligned else 'type')
+            res = _explore(it, 'parse', mk)
+            rets = [(c, o) for c, o in res if o[0] == 'ret' and c.c15_k == 2]
+            if len(rets) != 1:
+                ag.undecided(key, 'parse() has %d returning paths (of %d) on `struct S; %s struct S { long a; long b; };`' % (len(rets), len(res), decl), fline)
+                continue
+            ctx, out = rets[0]
+            v = _final(it, out[1])
+            if not isinstance(v, Obj) or _final(it, v.fields.get('ty', 0)) is not ctx.c15_ty or _final(it, v.fields.get('next', 0)) != 0:
+                ag.undecided(key, 'parse() does not return the one object declared by `%s` (%r)' % (decl, v), fline)
+                continue
+            fl = {f: _final(it, v.fields.get(f, 0)) for f in ('is_function', 'is_definition', 'is_static', 'is_tentative', 'is_tls')}
+            al = _final(it, v.fields.get('align', 0))
+            tsz, tal = _final(it, ctx.c15_ty.fields.get('size')), _final(it, ctx.c15_ty.fields.get('align'))
+            if not all(isinstance(x, int) for x in list(fl.values()) + [al, tsz, tal]):
+                ag.undecided(key, 'flags / alignment of the object are not concrete after parse(): %r align=%r type size/align=%r/%r' % (fl, al, tsz, tal), fline)
+                continue
+            fl = {f: int(bool(x)) for f, x in fl.items()}
+            got = _emitted_alignments(cg, fl, al, dict(kind=E['TY_STRUCT'], size=tsz, align=tal))
+            want = 64 if aligned else tal
+            for fcommon, (val, text) in sorted(got.items()):
+                cfg = '-fcommon' if fcommon else '-fno-common'
+                k2 = key
+                if val is None:
+                    ag.undecided(k2, 'emit_data on the object parse() built for `%s`: %s' % (decl, text), fline)
+                    continue
+                n += 1
+                ag.note(k2, val == want,
+                        '`struct S; %s struct S { long a; long b; };`: the object is emitted with alignment %d (%s, %s), the completed type demands %d: Obj.align (%d) still holds the alignment '
+                        'the incomplete type had when the object was created -- completing the struct does not update it and emit_data does not consult the type; the members are '
+                        'accessed with aligned-type assumptions by every unit that sees the complete type' % (decl, val, text, cfg, want, al), u.fn('new_var').line if 'new_var' in u.functions else fline,
+                        {'declaration': decl, 'flags': fl, 'Obj.align': al, 'type': {'size': tsz, 'align': tal}, 'emitted': text})
+    if n == 0:
+        raise AnalysisBroken('late completion: nothing evaluated')
+    ag.flush(fline)
+
+
 def _initial_global(it, P, name):
     """value of a global at program start: its initialiser, else zero (static storage duration)"""
     found = False
@@ -3378,7 +3761,7 @@ def run(P, rep, tier):
         return envs['pe']
     steps = [('R15.1', lambda: r151(cg, rep)), ('R15.2', lambda: r152(cg, rep)), ('R15.4', lambda: r154(cg, rep)),
              ('R15.3', lambda: r153(penv(), rep)), ('R15.5', lambda: r155(penv(), rep)), ('R15.6', lambda: r156(penv(), rep)),
-             ('R15.10', lambda: r1510(penv(), rep)), ('R15.11', lambda: r1511(penv(), rep)), ('R15.12', lambda: r1512(penv(), rep)),
+             ('R15.10', lambda: r1510(penv(), rep)), ('R15.11', lambda: r1511(penv(), rep)), ('R15.12', lambda: r1512(penv(), rep)), ('R15.13', lambda: r1513(penv(), rep)), ('R15.14', lambda: r1514(penv(), rep)), ('R15.15', lambda: r1515(penv(), rep)),
              ('R15.7', lambda: r157(P, rep)), ('R15.9', lambda: r159(P, rep))]
     for rule, f in steps:
         try:
